@@ -20,11 +20,26 @@ SESSIONS = {
 }
 
 
+# directed two-operation histories: the first operation is fixed, the second symbolic
+DIRECTED = {
+    "C03": [("move directory /r/a out of the tree", ("rename", b"/r/a", b"/o/c"))],
+    "C07": [("move directory /r/a out of the tree", ("rename", b"/r/a", b"/o/c"))],
+    "C01": [("mkdir /r/c", ("mkdir", b"/r/a", b"/r/c"))],
+    "C02": [("mkdir /r/c", ("mkdir", b"/r/a", b"/r/c"))],
+}
+
+
 def check(rep, pid):
     quick = rep.tier == "quick"
     q, t = SESSIONS[pid]
     cfgs = list(q) + ([] if quick else list(t))
     specs = []
+    for title, first in DIRECTED.get(pid, []):
+        settled = pid in ("C03", "C07")
+        specs.append(dict(name=f"{pid}: directed history: {title}, then any operation ({'settled' if settled else 'back-to-back'}), recursive, str",
+                          module="vf.props.fsfam", harness="h_history",
+                          args=((pid,), 2, True, settled, False, "str", False, first), setup="setup", native_ctx="native_ctx",
+                          jobs=3, query_timeout_s=900 if quick else 3000, loop_bound=200, int_union_limit=100000))
     for (nops, rec, settled, opr, sp, full) in cfgs:
         specs.append(dict(name=f"{pid}: {nops} op(s), recursive={rec}, {'settled' if settled else 'back-to-back'}, "
                                f"{'one event per read' if opr else 'one read per burst'}, root as {sp}, "
@@ -32,6 +47,8 @@ def check(rep, pid):
                           module="vf.props.fsfam", harness="h_history",
                           args=((pid,), nops, rec, settled, opr, sp, full), setup="setup", native_ctx="native_ctx",
                           jobs=3, query_timeout_s=900 if quick else 3000, loop_bound=200, int_union_limit=100000))
+    for sp in specs:
+        sp["property"] = pid
     res = run_sessions(specs, workers=min(len(specs), 5))
     rep.add_results(res)
     from . import fsfam
